@@ -1,9 +1,12 @@
 """C10 — built-in type selection can represent every value the schema admits.
 
 Deciding method: Coq theorems over `Algo/IntSelect.v` (Flocq binary64 model of
-convert_integer, format table regenerated from the Rust source), tied to /repo
-by (a) the table translator and (b) a correspondence run of model vs. the
-public API on the boundary lattice.  A direct evaluation of the property on
+convert_integer, format table regenerated from the Rust source), proved on the
+integer-level model `Algo/IntSelectZ.v` for all bounds and transferred by the
+refinement theorem C10_refine (safe bounds), tied to /repo by (a) the table
+translator and (b) a correspondence run of model vs. the public API on the
+boundary lattice; the same run re-evaluates the integer-level model on every
+lattice point inside the refinement's domain.  A direct evaluation of the property on
 the implementation (exact rational arithmetic) provides the failing input
 whenever an obligation or the correspondence breaks.
 """
@@ -16,10 +19,31 @@ from fractions import Fraction
 import vlib
 
 THEOREMS = [
+    # tables
     "C10_string_format_table",
     "C10_string_unknown_is_String",
     "C10_number_never_narrower",
     "C10_table_ranges_exact",
+    # integer-level model choose_integer_Z: all bounds / defaults / formats
+    "C10_int_fits_Z",
+    "C10_Known_F6_decidable",
+    "C10_int_fits_Z_refuted_F6",
+    "C10_F6_class_fails",
+    "C10_nonzero_only_if_zero_excluded_Z",
+    "C10_default_out_of_range_rejected_Z",
+    "C10_default_not_admitted_rejected_Z",
+    "C10_never_narrower_than_format",
+    # refinement Flocq model = integer-level model on safe bounds (closed, not _partial)
+    "C10_refine",
+    "C10_safe_decidable",
+    # composed, on the Flocq model
+    "C10_int_fits",
+    "C10_int_fits_refuted_F6",
+    "C10_nonzero_only_if_zero_excluded",
+    "C10_nonzero_refuted_F4",
+    "C10_default_out_of_range_rejected",
+    "C10_default_not_admitted_rejected",
+    "C10_never_narrower_than_format_f",
 ]
 FLOCQ_AXIOMS = vlib.STD_AXIOMS
 
@@ -165,7 +189,7 @@ def coq_case(schema, seen):
         d = "(Some %s)" % vlib.coq_opt(None if seen.get("default") is None else int(seen["default"]))
     else:
         d = "None"
-    return "run_int %s %s %s %s %s %s %s" % (
+    return "run_tie %s %s %s %s %s %s %s" % (
         vlib.coq_opt(fmt, vlib.coq_str), o("minimum"), o("maximum"), o("exclusiveMinimum"),
         o("exclusiveMaximum"), o("multipleOf"), d)
 
@@ -247,13 +271,23 @@ def run(ctx):
         "Flocq 4.1.0 binary64 (Bplus/Bminus/Bcompare/Babs) as the meaning of Rust f64 +,-,<=,abs on finite values",
         "axioms (Print Assumptions): " + ", ".join(sorted(FLOCQ_AXIOMS)) + " (via Flocq/Reals only)",
         "translator `vh tables` (syn): formats array of convert_integer, match arms of convert_string/convert_number",
-        "hand-written model Algo/IntSelect.v of convert_integer's control flow, tied by the lattice correspondence below",
+        "hand-written model Algo/IntSelect.v of convert_integer's control flow, tied by the lattice correspondence below "
+        "(checked by execution, not proved equal to the Rust)",
+        "Algo/IntSelectZ.v (integer-level model) is NOT trusted: C10_refine proves it equal to IntSelect.v on "
+        "safe_bounds, and the run re-evaluates both on every safe lattice point",
         "schemars/serde_json number parsing is taken from the implementation (parsed doubles are echoed as bit patterns)",
     ]
     ctx.assumptions = [
         "reading DESIGN 3.4: Adm(S) ∩ Base(format) ⊆ Range(chosen); Base = i64 when no recognised format",
-        "theorem C10_int_fits is stated for safe_bounds (integral doubles |b| <= 2^53 or ±2^63, 2^64); "
-        "non-integral bounds are explored by the lattice only",
+        "C10_int_fits / C10_nonzero_only_if_zero_excluded are proved on the Flocq model for safe_bounds (every bound an "
+        "integral double with |b| <= 2^53, or -2^63, 2^63, 2^64), any default, any format, multipleOf included in "
+        "`admitted`; excluded class Known_F6 (finding C10-F6, proved exact by C10_F6_class_fails)",
+        "the `_Z` theorems hold for all integer bounds (no magnitude restriction) on the integer-level model",
+        "not proved: bounds outside safe_bounds (non-integral doubles, integral doubles beyond 2^53 other than the three "
+        "limit constants); there C10_nonzero_refuted_F4 shows the NonZero sentence false (finding C10-F4) and the lattice "
+        "run explores the range sentence",
+        "default theorems speak about the add-time check inside convert_integer only (not the later range check of a "
+        "default against the chosen Rust type at finalisation)",
     ]
     ctx.checker_cmd = "make -f Makefile.coq theories/Props/C10.vo && coqc Audit_C10.v (Print Assumptions) ; thorough: coqchk -o"
 
@@ -273,22 +307,36 @@ def run(ctx):
     # ---- correspondence: model vs implementation
     mism = []
     model_ok = True
+    model, tie = [], []
     try:
-        ok_m, out_m = vlib.coq_make(["theories/Algo/IntSelect.vo"])
+        ok_m, out_m = vlib.coq_make(["theories/Algo/IntSelectZ.vo"])
         if not ok_m:
             raise RuntimeError(out_m[-2000:])
         exprs = [coq_case(c, r.get("seen", {})) for c, r in zip(cases, res)]
-        hdr = ("From Typify Require Import Algo.IntSelect.\nFrom Coq Require Import ZArith String.\n"
+        hdr = ("From Typify Require Import Algo.IntSelect Algo.IntSelectZ.\nFrom Coq Require Import ZArith String.\n"
                "Open Scope Z_scope. Open Scope string_scope.")
-        model = vlib.coq_eval_strings("c10", hdr, exprs, shard=600)
+        both = vlib.coq_eval_strings("c10", hdr, exprs, shard=600)
+        model = [m.split("|", 1)[0] for m in both]
+        tie = [m.split("|", 1)[1] if "|" in m else "?" for m in both]
         for c, r, m in zip(cases, res, model):
             if impl_str(r) != m:
                 mism.append({"schema": c, "impl": impl_str(r), "model": m})
     except Exception as e:  # noqa
         model_ok = False
+        model, tie = [], []
         ctx.oblige("model IntSelect.v evaluates", False, str(e))
     ctx.oblige("correspondence K1: choose_integer (Coq) = add_type (Rust) on %d lattice schemas" % len(cases),
                model_ok and not mism, json.dumps(mism[:5]))
+    # the integer-level model against the Flocq model, by execution, on every lattice point inside the
+    # domain of C10_refine (safe_boundsb / safe_defaultb are proved equivalent to the Prop forms)
+    zdiff = [{"schema": c, "flocq_model": m, "z_model": t[5:]} for c, m, t in zip(cases, model, tie)
+             if not (t == "same" or t == "unsafe")]
+    n_safe = sum(1 for t in tie if t == "same")
+    ctx.oblige("correspondence Z: choose_integer_Z = choose_integer (both Coq, vm_compute) on %d safe lattice schemas"
+               % n_safe, model_ok and not zdiff and n_safe > 0, json.dumps(zdiff[:5]))
+    ctx.coverage["z_model_safe_points"] = n_safe
+    ctx.coverage["z_model_unsafe_points"] = sum(1 for t in tie if t == "unsafe")
+    ctx.coverage["z_model_mismatches"] = len(zdiff)
     ctx.evaluations += len(cases)
     ctx.coverage["correspondence_cases"] = len(cases)
     ctx.coverage["correspondence_mismatches"] = len(mism)
